@@ -141,6 +141,16 @@ Definition well_locked_in (tbl : list method) (m : method) : bool :=
   if m_exported m then forallb (exported_path_ok tbl) (m_paths m) && negb (match m_paths m with [] => true | _ => false end)
   else worker_ok tbl m.
 
+(* Lock/Unlock events do not name the mutex: the discipline above is meaningful only if the type has exactly one
+   mutex field (two methods locking two different mutexes would each look well locked and still race) *)
+Definition single_mutex (fields : list string) : bool := match fields with [_] => true | _ => false end.
+
+(* no method mentions a package-level variable (state shared between all filters, which no receiver's mutex guards;
+   [Global] also falls into the rejecting default of every predicate in this file) *)
+Definition is_global (e : event) : bool := match e with Global _ => true | _ => false end.
+Definition no_globals (tbl : list method) : bool :=
+  forallb (fun m => forallb (fun p => negb (existsb is_global p)) (m_paths m)) tbl.
+
 (* Diagnostic refinement for reader/writer locks (sync.RWMutex).  The theorem of Part 1 is about an exclusive mutex,
    and [well_locked_in] above accepts exclusive sections only (RLock/RUnlock fall into the rejecting default).  The
    predicates below say what a sound use of a shared lock would at least require: a section opened with RLock may
